@@ -79,7 +79,7 @@ def _numeric_replay_once(G, names=None):
 
 
 def kernel_job(prog: str, order: str = "given", seed: int = 0) -> JobOut:
-    progs = {p.name: p for p in C.corpus("thorough" if prog.startswith("gen") else "quick", seed, exclude=())}
+    progs = {p.name: p for p in C.corpus("thorough" if prog.startswith(("gen", "g2_")) else "quick", seed, exclude=())}
     P = progs[prog]
     listed = load_findings("C01")
     try:
